@@ -41,6 +41,7 @@ var verifStore *verifStoreT
 var verifErrFault = errors.New("verif: injected store fault")
 
 func verifNewStore() *verifStoreT {
+	verifMaxRows = 0
 	s := &verifStoreT{
 		subs:   map[string]*types.Subscription{},
 		topics: map[string]*types.Topic{},
@@ -91,6 +92,10 @@ func (verifMessages) Save(msg *types.Message, attachmentURLs []string, readBySen
 	}
 	if err := s.mutate("Messages.Save"); err != nil {
 		return err, false
+	}
+	if verifMaxRows > 0 && len(s.msgs) >= verifMaxRows {
+		// a harness-declared ceiling on message rows: unwinds runaway writers (natively too)
+		verifAssert(false, verifMaxRowsLabel)
 	}
 	s.msgs = append(s.msgs, *msg)
 	marked := false
@@ -201,6 +206,10 @@ func (verifMessages) GetDeleted(topic string, forUser types.Uid, opt *types.Quer
 	ranges = types.RangeSorter(ranges).Normalize()
 	return ranges, maxID, nil
 }
+
+// ceiling on the number of message rows (0 = none) and the label reported when it is hit
+var verifMaxRows int
+var verifMaxRowsLabel = "no-runaway-message-writes"
 
 // --- Subs
 
